@@ -25,7 +25,7 @@ CHECKS = {
         "explicit-state BFS over solver event histories (E4) on the real frontends; brute-force model-set oracle",
         "Every history of add/satisfiable/eval/batch_eval/min/max (signed, unsigned, with extra constraints)/solution/"
         "is_true/is_false/simplify/downsize/branch/pickle up to depth 3-4 (thorough 5-6 on sub-alphabets, solver reuse "
-        "on/off) is replayed on a fresh solver and each answer compared with the brute-force model set over x,y:BV3,c:Bool.",
+        "on/off) is replayed on a fresh solver and each answer compared with the brute-force model set over x,y:BV3,c:Bool. Plus an optimum-cutting alphabet (each add removes one extreme value) to depth 4-5.",
         "Reference = truth tables of the constraints (refsem). Fresh thread per history gives a fresh z3 context "
         "(deterministic). Bounded depth and alphabet; SolverStrings covered by C03/C26 drivers.",
         "DESIGN.md §1.3, §2 C11",
@@ -60,7 +60,7 @@ CHECKS = {
         "model_checking",
         "explicit-state BFS over solver event histories (E4) on SolverComposite; brute-force model-set oracle",
         "Histories over four 2-bit variables whose constraints connect/disconnect child solvers in every order, queries "
-        "and extras spanning 0-2 children, simplify/branch/downsize/pickle; depth 3-4 (thorough 5, reuse, track).",
+        "and extras spanning 0-2 children, simplify/branch/downsize/pickle; depth 3-4 (thorough 5, reuse, track). Plus a bridging alphabet (two two-variable groups joined by a later constraint, re-split, query) to depth 5-6.",
         "As C11. merge/combine/split are decided by C15, branch isolation by C14.",
         "DESIGN.md §2 C12",
     ),
@@ -68,7 +68,7 @@ CHECKS = {
         "model_checking",
         "explicit-state BFS over solver event histories (E4); exact oracle for exact modes, containment oracle for approximate modes",
         "SolverReplacement (defaults; options toggled in thorough) and SolverHybrid(exact) against the exact oracle; "
-        "SolverHybrid(exact=False / approximate_first) and SolverVSA against the over-approximation oracle.",
+        "SolverHybrid(exact=False / approximate_first) and SolverVSA against the over-approximation oracle. Plus a replacement-cache alphabet to depth 4-5, approximate_first with an explicit exact=True against the exact oracle, signed optima for the approximate classes.",
         "As C11; an approximate solver declining a query (ClaripyFrontendError) is counted as unsupported.",
         "DESIGN.md §2 C13",
     ),
@@ -77,7 +77,7 @@ CHECKS = {
         "explicit-state BFS over interleaved histories on trees of branched solvers; per-member reference + projection differential",
         "Prefix on the root, fork, then every interleaving of events over all members (nested forks), for every frontend "
         "class; a wrong answer is a leak iff the member's own projection answers correctly; approximate classes are "
-        "compared literally with their projection.",
+        "compared literally with their projection. Includes members that downsize() a solver object created before the fork and cross-group queries on SolverComposite.",
         "As C11.",
         "DESIGN.md §2 C14",
     ),
@@ -85,7 +85,7 @@ CHECKS = {
         "model_checking",
         "exhaustive enumeration of solver-state pairs/triples x merge conditions; model sets compared with the brute-force specification",
         "merge / merge with ancestor / sibling merges / combine / split on every class over all pairs of short-history "
-        "states and all condition tuples; result model set read back exhaustively (128 assignments).",
+        "states and all condition tuples; result model set read back exhaustively (128 assignments). Plus 3-way combine, splits whose last conjunct bridges two groups (added one by one and in one add), and approximate bounds of merged hybrid solvers.",
         "The result's model set is read through its own satisfiable()+batch_eval (exactness of those is C11/C12).",
         "DESIGN.md §2 C15",
     ),
@@ -93,7 +93,7 @@ CHECKS = {
         "model_checking",
         "exhaustive enumeration of constraint orders on tracking solvers; truth-table check of the returned core",
         "Every order of every <=3-subset (4 on a sub-alphabet) of an 11-constraint alphabet with queries interleaved in "
-        "4 variants, Solver and SolverComposite with track=True; element types, membership, unsatisfiability of the core.",
+        "4 variants, Solver and SolverComposite with track=True; element types, membership, unsatisfiability of the core. Plus blank_copy()+add and split() parts (no inherited core) and an annotated twin of every constraint registered first by another tracked solver of the thread.",
         "Core elements may be constraints the solver holds after its own simplification.",
         "DESIGN.md §2 C16",
     ),
@@ -111,7 +111,7 @@ CHECKS = {
         "exhaustive enumeration of expression / solver states, round-tripped in-process and in child interpreters with other hash seeds",
         "All E1 states to depth 2 plus annotated/FP/string expressions: identity in-process, structure+metadata+truth "
         "table in children (PYTHONHASHSEED 1, 2, random); every solver state of depth <=2 (3 thorough) of every class "
-        "queried after unpickling, in-process and cross-process, against the brute-force oracle.",
+        "queried after unpickling, in-process and cross-process, against the brute-force oracle. The child also rebuilds every expression natively (the unpickled object must be that object), and pre ; pickle ; post must answer exactly like pre ; post (differential, all classes incl. inexact ones).",
         "A query the never-pickled twin also gets wrong is dropped (C11-C13 decide it).",
         "DESIGN.md §2 C18",
     ),
